@@ -356,6 +356,95 @@ def run(F, chk):
                           "pointer in UpdateHeaderStrings" % fn["name"])
     chk.floor(R6, 3)
 
+    # ---------------------------------------------------------------- R16.7
+    R7 = chk.rule("R16.7", "one-sided size checks: in code reachable from Load / Save / CopyFrom, when a function tests the size of one of "
+                           "its vector parameters, every other vector parameter it indexes by the variable of a counted loop is either "
+                           "the one the loop is bounded by or has its own size tested before the loop — the arrays handed in come from "
+                           "the loaded model, where a short read can leave one of a pair sized and the other empty")
+    lroots = [f["id"] for f in F.fns.values() if f.get("cls") == "nifly::NifFile" and f["short"] in ("Load", "Save", "CopyFrom")]
+    lscope = F.reachable(lroots)
+
+    def _peel7(e):
+        while is_node(e) and e["k"] == "Cast":
+            e = e["e"]
+        return e
+
+    def _root_param(b, vp):
+        b = _peel7(b)
+        while is_node(b) and ((b["k"] == "Unary" and b["op"] == "*") or (b["k"] == "OpCall" and b.get("op") in ("*", "->") and b.get("args"))):
+            b = _peel7(b["e"] if b["k"] == "Unary" else b["args"][0])
+        return b["id"] if is_node(b) and b["k"] == "Ref" and b.get("id") in vp else None
+
+    n7 = 0
+    for fid in sorted(lscope):
+        fn = F.fns.get(fid)
+        if not fn or not fn.get("body") or fn.get("tmpl") == "pattern" or not (fn.get("file") or "").startswith(("src/", "include/")):
+            continue
+        vp = {p_["id"]: p_ for p_ in fn.get("params", []) if "std::vector<" in (p_.get("ct") or p_.get("t") or "")}
+        if len(vp) < 2:
+            continue
+        render = F.expander(fn)[0]
+        sized = {}  # param id -> location key of the first size comparison
+
+        def _note_sizes(cond, at):
+            for x in walk(cond):
+                if x["k"] == "Binary" and x["op"] in ("==", "!=", "<", ">", "<=", ">="):
+                    for a in (x["l"], x["r"]):
+                        a = _peel7(a)
+                        # through locals defined once: `const size_t n = tangents->size(); if (n != ...)`
+                        for y in walk({"k": "Tuple", "args": [a]}):
+                            pass
+                        txt = render(a)
+                        for pid_, p_ in vp.items():
+                            if ("%s->size()" % p_["name"]) in txt or ("%s.size()" % p_["name"]) in txt:
+                                sized.setdefault(pid_, at)
+
+        order = list(walk(fn["body"]))
+        pos = {id(x): i_ for i_, x in enumerate(order)}
+        for x in order:
+            if x["k"] == "If" and is_node(x.get("cond")):
+                _note_sizes(x["cond"], pos[id(x)])
+        if not sized:
+            continue
+        for lp in order:
+            if lp["k"] != "For":
+                continue
+            bound = flow.counted_loop(lp)
+            if bound is None:
+                continue
+            lv = lp["init"]["vars"][0]["id"]
+            btxt = render(bound)
+            for x in walk(lp.get("body") or {}):
+                base = idx = None
+                if x["k"] == "Subscript":
+                    base, idx = x["base"], x["idx"]
+                elif x["k"] == "OpCall" and x.get("op") == "[]" and len(x.get("args", [])) == 2:
+                    base, idx = x["args"]
+                elif x["k"] == "Call" and x.get("short") == "at" and is_node(x.get("recv")) and x.get("args"):
+                    base, idx = x["recv"], x["args"][0]
+                if base is None:
+                    continue
+                q = _root_param(base, vp)
+                i_ = _peel7(idx)
+                if q is None or not (is_node(i_) and i_["k"] == "Ref" and i_.get("id") == lv):
+                    continue
+                qn = vp[q]["name"]
+                own = ("%s->size()" % qn) in btxt or ("%s.size()" % qn) in btxt
+                tested = q in sized and sized[q] < pos[id(lp)]
+                others = [vp[o]["name"] for o in sized if o != q]
+                if not others:
+                    continue
+                n7 += 1
+                ok = own or tested
+                chk.instance(R7, ok=ok, sample={"fn": fn["name"], "indexed": qn, "loop_bound": btxt, "size_tested_params": others})
+                if not ok:
+                    chk.violation("R16.7", "C16/R16.7:%s:%s" % (fn["name"].split("(")[0], qn), where(fn, x),
+                                  "%s tests the size of `%s` but indexes `%s` by a loop bounded by `%s` without testing its size: "
+                                  "after a short read the two arrays of the pair can differ in length (one sized, one empty), and "
+                                  "the save of what was loaded reads past the shorter one / throws" %
+                                  (fn["name"], "`, `".join(others), qn, btxt))
+    chk.floor(R7, 2)
+
 
 def _pos_guard(st, d):
     """divisor proven >= 1 by a comparison fact like (0 < d) or !(d < 1)"""
